@@ -184,11 +184,26 @@ fn read_all(rt: &tokio::runtime::Runtime, segs: Vec<Vec<u8>>) -> Result<(Vec<RFr
     res.map_err(|_| crate::last_panic())
 }
 
+/// Reduced exploration (used under Miri, where everything is ~1000x slower).
+pub static LIGHT: std::sync::atomic::AtomicBool = std::sync::atomic::AtomicBool::new(false);
+
 fn case(ctx: &Ctx, rt: &tokio::runtime::Runtime, case: u64, out: &mut Out) -> Option<Verdict> {
+    let light = LIGHT.load(std::sync::atomic::Ordering::Relaxed);
     let mut r = Rng::derive(ctx.seed, 0xC08_0000_0000 ^ case);
-    let nframes = r.range(1, 5) as usize;
-    let big_ok = r.chance(1, 6);
-    let frames: Vec<RFrame> = (0..nframes).map(|_| gen_writable(&mut r, big_ok)).collect();
+    let nframes = if light { r.range(1, 2) as usize } else { r.range(1, 5) as usize };
+    let big_ok = !light && r.chance(1, 6);
+    let mut frames: Vec<RFrame> = (0..nframes).map(|_| gen_writable(&mut r, big_ok)).collect();
+    if light {
+        for _ in 0..20 {
+            if frames.iter().map(|f| encode(f).len()).sum::<usize>() <= 90 {
+                break;
+            }
+            frames = (0..nframes).map(|_| gen_writable(&mut r, false)).collect();
+        }
+        if frames.iter().map(|f| encode(f).len()).sum::<usize>() > 90 {
+            frames = vec![RFrame::Array(vec![RFrame::Bulk(b"GET".to_vec()), RFrame::Int(i64::MIN), RFrame::Null])];
+        }
+    }
     let encs: Vec<Vec<u8>> = frames.iter().map(encode).collect();
     let all: Vec<u8> = encs.concat();
     let eh = crate::orch::fnv(&all);
@@ -279,6 +294,10 @@ fn case(ctx: &Ctx, rt: &tokio::runtime::Runtime, case: u64, out: &mut Out) -> Op
         cuts.dedup();
         segmentations.push((format!("random-{}:{:?}", k, &cuts[..cuts.len().min(6)]), segment(&all, &cuts)));
     }
+    if light {
+        let keep: Vec<usize> = (0..segmentations.len()).filter(|i| *i < 2 || i % 7 == 3 || *i + 3 > segmentations.len()).collect();
+        segmentations = keep.into_iter().map(|i| segmentations[i].clone()).collect();
+    }
     for (name, segs) in segmentations {
         let nseg = segs.len();
         out.evaluations += 1;
@@ -312,6 +331,9 @@ fn case(ctx: &Ctx, rt: &tokio::runtime::Runtime, case: u64, out: &mut Out) -> Op
     if last.len() > 200 {
         cut_points.extend([1, 2, 3, last.len() - 1, last.len() - 2]);
     }
+    if light {
+        cut_points = cut_points.into_iter().step_by(5).collect();
+    }
     for c in cut_points {
         let mut stream = head.clone();
         stream.extend_from_slice(&last[..c]);
@@ -335,6 +357,21 @@ fn case(ctx: &Ctx, rt: &tokio::runtime::Runtime, case: u64, out: &mut Out) -> Op
         out.sample(json!({"case": case, "frames": frames.iter().map(brief).collect::<Vec<_>>(), "stream_bytes": all.len(), "segmentations": "all-at-once, byte-by-byte, every/sampled 2-way split, 6 random cut sets, every/sampled truncation of the last frame"}));
     }
     None
+}
+
+/// In-process reduced run for `cargo miri run`: returns (evaluations, violations).
+pub fn miri_run(seed: u64, cases: u64) -> (u64, Vec<String>) {
+    LIGHT.store(true, std::sync::atomic::Ordering::Relaxed);
+    let rt = tokio::runtime::Builder::new_current_thread().build().expect("runtime");
+    let ctx = Ctx { id: "C08".into(), tier: Tier::Quick, seed, shard: 0, nshards: 1, out_path: std::path::PathBuf::from("/nonexistent/out"), scratch: std::path::PathBuf::from("/nonexistent"), only_case: None, mode: "miri".into(), detail: serde_json::Value::Null };
+    let mut out = Out::default();
+    let mut v = Vec::new();
+    for c in 0..cases {
+        if let Some(x) = case(&ctx, &rt, c, &mut out) {
+            v.push(format!("[{}] case {}: {}", x.sig, c, x.desc));
+        }
+    }
+    (out.evaluations, v)
 }
 
 fn worker(ctx: &Ctx, out: &mut Out) {
